@@ -83,8 +83,22 @@ template<class C> static void observe(C& c, const char* ret, unsigned long cmps)
   if(lvl >= 1)
   {
     printf(" |");
-    for(typename C::Iterator i = c.begin(), end = c.end(); i != end; ++i)
+    unsigned long n = 0, h = 0;
+    for(typename C::Iterator i = c.begin(), end = c.end(); i != end; ++i, ++n)
+    {
       printf(" %d:%d", i.key().k, *i);
+      h = h * 31 + (unsigned long)(unsigned)i.key().k * 7 + (unsigned long)(unsigned)*i;
+    }
+    // the prev links must thread the same sequence backwards, and isEmpty() must agree with size()
+    unsigned long nb = 0, pw = 1, hb = 0;
+    for(typename C::Iterator i = c.end(), b = c.begin(); i != b && nb <= n; ++nb)
+    {
+      --i;
+      hb += pw * ((unsigned long)(unsigned)i.key().k * 7 + (unsigned long)(unsigned)*i);
+      pw *= 31;
+    }
+    if(nb != n || hb != h || n != (unsigned long)c.size() || c.isEmpty() != (n == 0))
+      printf(" BACKWARD-WALK-OR-SIZE-MISMATCH");
   }
   if(lvl >= 2)
   {
